@@ -168,6 +168,10 @@ OTHER_ID_KEYS = ["HTTP_REMOTE_USER", "HTTP_X_FORWARDED_USER", "HTTP_X_USER", "HT
 CONFIGURED_KEY = {"remote_user": "REMOTE_USER", "http_x_remote_user": "HTTP_X_REMOTE_USER"}
 IDENTITY_KEYS = OTHER_ID_KEYS + list(CONFIGURED_KEY.values())
 ID_VALUES = ["admin", "root", "alice", "mallory", "Bob"]
+# the login is the EXACT value of the configured variable (only the configured lower/upper/strip_domain applies): lists, blanks,
+# empty elements must not be interpreted
+ODD_ID_VALUES = ["mallory,alice", " alice ", "a,,b", ",", "alice, bob", "\talice", "alice ", ", alice", "alice;bob", "alice bob", " ",
+                 "Alice@Example.com, root", ",root"]
 
 
 def b64(b):
@@ -266,9 +270,9 @@ def gen_case(rng, rig):
     if ct is not None:
         env["CONTENT_TYPE"] = ct
     if rng.random() < 0.35 or cfg["kind"] == "remote_user" and rng.random() < 0.8:
-        env["REMOTE_USER"] = rng.choice(LOGINS + ["", "mallory", "root"])
+        env["REMOTE_USER"] = rng.choice(LOGINS + ["", "mallory", "root"] + ODD_ID_VALUES)
     if rng.random() < 0.35 or cfg["kind"] == "http_x_remote_user" and rng.random() < 0.8:
-        env["HTTP_X_REMOTE_USER"] = rng.choice(LOGINS + ["", "mallory", "root"])
+        env["HTTP_X_REMOTE_USER"] = rng.choice(LOGINS + ["", "mallory", "root"] + ODD_ID_VALUES)
     # other identity-looking variables / client headers: no back-end may take the user from them
     if rng.random() < 0.35:
         for k in rng.sample(OTHER_ID_KEYS, rng.randint(1, 3)):
